@@ -678,6 +678,219 @@ C12(cfg, obs) ==
                /\ (~multi \/ ~\E i \in ucalls : InsideP(nst.par, a, i) /\ \E i2 \in ucalls : InsideP(nst.par, i2, i))}}
 
 -----------------------------------------------------------------------------
+\* C14 demand conservation (scenarios with cfg.c14: pull-mode upstreams, sinks sending at most one
+\* Pull per message received)
+CountIn(S) == Cardinality(S)
+C14(cfg, obs) ==
+  IF ~cfg.c14 THEN {} ELSE
+  LET nst == Nest(obs)
+      own == Owners(cfg, obs, nst)
+      quiet == {StepEnd(obs, t) : t \in Tops(obs)}
+  IN
+  UNION {
+    LET mine == {u \in DOMAIN own : own[u] = K}
+        dAt(i) == CountIn({b \in Calls(obs) : b <= i /\ ToC(obs, b, K) /\ obs[b].t = "D"})
+        pAt(i) == CountIn({a \in Calls(obs) : a <= i /\ FromC(obs, a, K) /\ obs[a].t = "P"})
+        pending(q) == \E u \in mine : ~USelfEndedBefore(obs, u, q + 1) /\ ~UStoppedBefore(obs, u, q + 1)
+                        /\ CountIn({i \in 1..q : obs[i].k = "note" /\ obs[i].to = u /\ obs[i].t = "defer"})
+                           > CountIn({i \in 1..q : obs[i].k = "top" /\ obs[i].to = u /\ obs[i].t = "reply"})
+    IN
+    {W("C14", "over_delivery", b, K, cfg, "") :
+       b \in {b \in Calls(obs) : ToC(obs, b, K) /\ obs[b].t = "D" /\ dAt(b) > pAt(b)}}
+    \cup
+    (IF Panicked(obs) THEN {} ELSE
+     LET bad == {q \in quiet : LiveAt(obs, K, q + 1) /\ ~pending(q) /\ dAt(q) < pAt(q)} IN
+     IF bad = {} THEN {} ELSE {W("C14", "unanswered", Min(bad), K, cfg, "")})
+    : K \in {KNm(k) : k \in {k \in 1..Len(cfg.sinks) : cfg.sinks[k] = "probe"}}}
+
+-----------------------------------------------------------------------------
+\* C15 from_iter (root is a from_iter node, probe sinks)
+RECURSIVE DepthOf(_, _)
+DepthOf(par, i) == IF par[i] = 0 THEN 0 ELSE 1 + DepthOf(par, par[i])
+
+C15(cfg, obs) ==
+  IF RootKind(cfg) # "from_iter" THEN {} ELSE
+  LET nst == Nest(obs)
+      nd == cfg.nodes[cfg.root]
+      item(k) == IF nd.unbounded THEN k ELSE nd.items[k]
+      nitems == IF nd.unbounded THEN nd.limit ELSE Len(nd.items)
+      attaches == {t \in Tops(obs) : obs[t].t = "attach"}
+      quiet == {StepEnd(obs, t) : t \in Tops(obs)}
+  IN
+  UNION {
+    LET K == obs[t].to
+        rank == Cardinality({a \in attaches : a <= t})
+        iname == "I" \o ToString(cfg.root) \o "#" \o ToString(rank)
+        ds == {b \in Calls(obs) : ToC(obs, b, K) /\ obs[b].t = "D"}
+        ts == {b \in Calls(obs) : ToC(obs, b, K) /\ obs[b].t = "T"}
+        ps == {a \in Calls(obs) : FromC(obs, a, K) /\ obs[a].t = "P"}
+        nexts == {e \in Idx(obs) : obs[e].k = "next" /\ obs[e].to = iname}
+        dAt(i) == Cardinality({b \in ds : b <= i})
+        pAt(i) == Cardinality({a \in ps : a <= i})
+    IN
+    \* items in order
+    {W("C15", "order", b, K, cfg, "") :
+       b \in {b \in ds : dAt(b) > nitems \/ obs[b].v # item(dAt(b))}}
+    \cup
+    \* one item per Pull
+    {W("C15", "over_delivery", b, K, cfg, "") : b \in {b \in ds : dAt(b) > pAt(b)}}
+    \cup
+    (IF Panicked(obs) THEN {} ELSE
+     LET bad == {q \in quiet : LiveAt(obs, K, q + 1) /\ dAt(q) # pAt(q)} IN
+     IF bad = {} THEN {} ELSE {W("C15", "unanswered", Min(bad), K, cfg, "")})
+    \cup
+    \* never re-entrant: no delivery begins while a Data delivery to the same sink is in progress
+    {W("C15", "reentrant", b, K, cfg, "") :
+       b \in {b \in ds \cup ts : \E a \in ds : InsideP(nst.par, b, a)}}
+    \cup
+    \* completion exactly once, on the Pull that finds the iterator exhausted
+    {W("C15", "end_early", c, K, cfg, "") :
+       c \in {c \in ts : nd.unbounded \/ dAt(c) # nitems \/ ~\E a \in ps : InsideP(nst.par, c, a)}}
+    \cup
+    {W("C15", "end_twice", c, K, cfg, "") : c \in {c \in ts : \E c0 \in ts : c0 < c}}
+    \cup
+    \* the iterator is never advanced without a Pull, nor once disposed; one next per item or end
+    {W("C15", "next_without_pull", e, K, cfg, "") :
+       e \in {e \in nexts : ~\E a \in ps : a < e /\ nst.ret[a] > e}}
+    \cup
+    {W("C15", "next_after_dispose", e, K, cfg, "") :
+       e \in {e \in nexts : DisposedBefore(obs, K, e)}}
+    \cup
+    (IF Cardinality(nexts) # Cardinality(ds) + Cardinality(ts) /\ ~Panicked(obs)
+     THEN {W("C15", "next_count", Len(obs), K, cfg, "")} ELSE {})
+    \cup
+    \* stack depth does not grow with the number of items: a delivery is never nested deeper than
+    \* (top-level Pull or greeting) -> item -> nested Pull
+    {W("C15", "stack_depth", b, K, cfg, "") : b \in {b \in ds \cup ts : DepthOf(nst.par, b) > 3}}
+    : t \in attaches}
+
+-----------------------------------------------------------------------------
+\* C16 interval (root is an interval node; subscription s <-> task T<s> <-> the s-th attached sink)
+C16(cfg, obs) ==
+  IF RootKind(cfg) # "interval" THEN {} ELSE
+  LET period == cfg.nodes[cfg.root].period
+      attaches == {t \in Tops(obs) : obs[t].t = "attach"}
+  IN
+  UNION {
+    LET K == obs[t].to
+        rank == Cardinality({a \in attaches : a <= t})
+        tname == "T" \o ToString(rank)
+        sp == {e \in Idx(obs) : obs[e].k = "spawn" /\ obs[e].to = tname}
+        toK == {b \in Calls(obs) : ToC(obs, b, K)}
+        ds == {b \in toK : obs[b].t = "D"}
+        fires == {f \in Tops(obs) : obs[f].t = "fire" /\ obs[f].to = tname}
+    IN
+    IF sp = {} THEN (IF Panicked(obs) THEN {} ELSE {W("C16", "no_spawn", t, K, cfg, "")})
+    ELSE LET e == Min(sp) IN
+    IF obs[e].t # "ok"
+    THEN \* the task cannot be spawned: exactly one Error and nothing else
+         (IF Cardinality(toK) # 1
+                \/ (\E b \in toK : obs[b].t # "E" \/ obs[b].v # (IF obs[e].t = "Spawn" THEN 700 ELSE 701))
+          THEN {W("C16", "spawn_failure", e, K, cfg, "")} ELSE {})
+    ELSE
+      \* 0, 1, 2, ...
+      {W("C16", "sequence", b, K, cfg, "") :
+         b \in {b \in ds : obs[b].v # Cardinality({d \in ds : d <= b}) - 1}}
+      \cup
+      \* exactly one number per elapsed period of its own task, none once the disposal is visible
+      UNION {
+        LET inStep == {b \in ds : b > f /\ b <= StepEnd(obs, f)} IN
+        IF DisposedBefore(obs, K, f)
+        THEN {W("C16", "after_dispose", b, K, cfg, "") : b \in inStep}
+        ELSE IF Cardinality(inStep) # 1 /\ ~Panicked(obs)
+             THEN {W("C16", "not_per_period", f, K, cfg, "")} ELSE {}
+        : f \in fires}
+      \cup
+      {W("C16", "data_outside_tick", b, K, cfg, "") :
+         b \in {b \in ds : LET m == StepStart(obs, b) IN m = 0 \/ ~(m \in fires)}}
+      \cup
+      {W("C16", "sleep_duration", i, K, cfg, "") :
+         i \in {i \in Idx(obs) : obs[i].k = "sleep" /\ obs[i].to = tname /\ obs[i].v # period}}
+    : t \in attaches}
+
+-----------------------------------------------------------------------------
+\* C06 iterable programming: pipe!(from_iter(xs), stages.., for_each(f)); the for_each sits behind a
+\* tap named K1 and its closure logs fn events named F1
+RECURSIVE Sem(_, _)
+Sem(cfg, n) ==
+  LET nd == cfg.nodes[n] IN
+  CASE nd.kind = "from_iter" -> IF nd.unbounded THEN [q \in 1..nd.limit |-> q] ELSE nd.items
+    [] nd.kind \in {"map", "filter", "scan", "take", "skip"} -> UnaryL(nd, Sem(cfg, nd.ups[1]))
+    [] nd.kind = "flatmap" -> ConcatMapL(nd.g, Sem(cfg, nd.ups[1]))
+    [] nd.kind = "concat" ->
+         LET RECURSIVE Cat(_)
+             Cat(i) == IF i > Len(nd.ups) THEN <<>> ELSE Sem(cfg, nd.ups[i]) \o Cat(i + 1)
+         IN Cat(1)
+
+\* for a linear pipeline of unary operators: how many elements of the upstream list xs are consumed
+\* when the downstream wants `want` outputs (want > Len means: until the end), and whether the
+\* upstream end is reached.  Returns <<consumed, reachedEnd>>.
+Inf == 1000000
+RECURSIVE FirstK(_, _, _, _)
+\* least prefix length of xs containing `want` elements satisfying p (Len+1 if there are fewer)
+FirstK(p, xs, want, i) ==
+  IF want = 0 THEN i - 1
+  ELSE IF i > Len(xs) THEN Len(xs) + 1
+  ELSE FirstK(p, xs, IF PrI(p, xs[i]) THEN want - 1 ELSE want, i + 1)
+
+RECURSIVE Need(_, _, _)
+\* number of `next` calls (elements + possibly the exhausting call) that node n's subtree performs on
+\* its from_iter when its consumer wants `want` outputs (Inf = runs to completion)
+Need(cfg, n, want) ==
+  LET nd == cfg.nodes[n] IN
+  IF nd.kind = "from_iter"
+  THEN LET len == IF nd.unbounded THEN Inf ELSE Len(nd.items) IN IF want > len THEN len + 1 ELSE want
+  ELSE LET xs == Sem(cfg, nd.ups[1]) IN
+       CASE nd.kind \in {"map", "scan"} -> Need(cfg, nd.ups[1], want)
+         [] nd.kind = "take" -> Need(cfg, nd.ups[1], IF nd.n < want THEN nd.n ELSE want)
+         [] nd.kind = "skip" -> Need(cfg, nd.ups[1], IF want >= Inf THEN Inf ELSE want + nd.n)
+         [] nd.kind = "filter" ->
+              IF want >= Inf THEN Need(cfg, nd.ups[1], Inf)
+              ELSE LET k == FirstK(nd.p, xs, want, 1) IN
+                   Need(cfg, nd.ups[1], IF k > Len(xs) THEN Inf ELSE k)
+
+IsLinearUnary(cfg) ==
+  /\ \A n \in 1..Len(cfg.nodes) : cfg.nodes[n].kind \in {"from_iter", "map", "filter", "scan", "take", "skip"}
+  /\ Cardinality({n \in 1..Len(cfg.nodes) : cfg.nodes[n].kind = "from_iter"}) = 1
+
+C06(cfg, obs) ==
+  IF cfg.fam # "pipeline" THEN {} ELSE
+  LET nst == Nest(obs)
+      K == "K1"
+      expect == Sem(cfg, cfg.root)
+      fns == {i \in Idx(obs) : obs[i].k = "fn" /\ obs[i].to = "F1"}
+      got == ValsOf(obs, fns, 1)
+      ds == {b \in Calls(obs) : ToC(obs, b, K) /\ obs[b].t = "D"}
+      ts == {b \in Calls(obs) : ToC(obs, b, K) /\ IsEndT(obs[b].t)}
+      ps == {a \in Calls(obs) : FromC(obs, a, K) /\ obs[a].t = "P"}
+      nexts == {e \in Idx(obs) : obs[e].k = "next"}
+      ran == \E t \in Tops(obs) : obs[t].t = "attach"
+  IN
+  IF ~ran \/ Panicked(obs) THEN {} ELSE
+  \* f is called on exactly the elements of the list function, in order
+  (IF got # expect THEN {W("C06", "wrong_elements", Len(obs), K, cfg, "")} ELSE {})
+  \cup
+  \* ... and then the pipeline completes (exactly one Terminate, after the last datum) without stalling
+  (IF Cardinality({c \in ts : obs[c].t = "T"}) # 1 \/ \E c \in ts : obs[c].t = "E"
+   THEN {W("C06", "no_completion", Len(obs), K, cfg, "")} ELSE {})
+  \cup
+  {W("C06", "data_after_completion", b, K, cfg, "") : b \in {b \in ds : \E c \in ts : c < b}}
+  \cup
+  \* the iterators are advanced only on demand: every next() lies inside a Pull of the consumer
+  {W("C06", "next_without_pull", e, obs[e].to, cfg, "") :
+     e \in {e \in nexts : ~\E a \in ps : a < e /\ nst.ret[a] > e}}
+  \cup
+  {W("C06", "runaway", e, obs[e].to, cfg, "") : e \in {e \in Idx(obs) : obs[e].k = "runaway"}}
+  \cup
+  \* each iterable is cloned once (one subscription) and advanced once per element delivered plus
+  \* once to discover exhaustion: for linear pipelines the exact number is computable
+  (IF IsLinearUnary(cfg) /\ Cardinality(nexts) # Need(cfg, cfg.root, Inf)
+   THEN {W("C06", "next_count", Len(obs), K, cfg, "")} ELSE {})
+  \cup
+  {W("C06", "advanced_after_end", e, obs[e].to, cfg, "") :
+     e \in {e \in nexts : \E e0 \in nexts : e0 < e /\ obs[e0].to = obs[e].to /\ obs[e0].v = -1}}
+
+-----------------------------------------------------------------------------
 \* dispatcher used by the model configurations (MC_*) and by TraceProps
 PropsOf(p, cfg, obs) ==
   CASE p = "C01" -> C01(cfg, obs)
@@ -685,12 +898,16 @@ PropsOf(p, cfg, obs) ==
     [] p = "C03" -> C03(cfg, obs)
     [] p = "C04" -> C04(cfg, obs)
     [] p = "C05" -> C05(cfg, obs)
+    [] p = "C06" -> C06(cfg, obs)
     [] p = "C07" -> C07(cfg, obs)
     [] p = "C08" -> C08(cfg, obs)
     [] p = "C09" -> C09(cfg, obs)
     [] p = "C10" -> C10(cfg, obs)
     [] p = "C11" -> C11(cfg, obs)
     [] p = "C12" -> C12(cfg, obs)
+    [] p = "C14" -> C14(cfg, obs)
+    [] p = "C15" -> C15(cfg, obs)
+    [] p = "C16" -> C16(cfg, obs)
     [] p = "C17" -> C17(cfg, obs)
     [] OTHER -> {}
 =============================================================================
